@@ -473,6 +473,64 @@ Section Proofs.
     exfalso. apply Hn. apply digest_supported. exists d. exact E.
   Qed.
 
+  (* ---------------------------------------------------------------- the cert argument in all its forms *)
+  Notation vrsc := (verify_redirect_signature_c cert_of verify).
+
+  Lemma unsupported_not_verified_c own q ca a :
+    get q K_ALG = Some a -> ~ supported a -> vrsc own q ca = VNone.
+  Proof.
+    intros Ha Hn. destruct ca as [|c|]; cbn [verify_redirect_signature_c];
+      try (apply (unsupported_not_verified _ _ _ _ Ha Hn)).
+    rewrite Ha. destruct (digest_of a) as [d|] eqn:E; [|reflexivity].
+    exfalso. apply Hn. apply digest_supported. exists d. exact E.
+  Qed.
+
+  (* octets that are no certificate verify nothing: whatever is presented, whoever verifies *)
+  Lemma unreadable_not_verified own q : vrsc own q CUnreadable <> VTrue.
+  Proof.
+    cbn [verify_redirect_signature_c]. destruct (get q K_ALG) as [a|]; [|discriminate].
+    destruct (digest_of a); [|discriminate]. destruct (has q K_REQ || has q K_RESP); [|discriminate].
+    destruct (get q K_SIG); discriminate.
+  Qed.
+
+  (* no certificate at all: the verifying entity's own certificate *)
+  Lemma absent_is_own own q : vrsc own q CAbsent = vrsc own q (CCert (cert_of own)).
+  Proof. reflexivity. Qed.
+
+  (* the outcomes that are exceptions other than ValueError depend on the parameters only *)
+  Definition raises (r : vres) : bool :=
+    match r with VKeyError | VUnsupported | VOther => true | _ => false end.
+
+  Lemma vview_has q : (has q K_REQ || has q K_RESP) = match vview q with Some _ => true | None => false end.
+  Proof. unfold vview, has. destruct (get q K_REQ); [reflexivity|]. destruct (get q K_RESP); reflexivity. Qed.
+
+  Lemma raises_param_only own q ca ca' : raises (vrsc own q ca) = true -> vrsc own q ca' = vrsc own q ca.
+  Proof.
+    assert (E : forall c, vrsc own q c =
+      match get q K_ALG with
+      | None => VKeyError
+      | Some a => match digest_of a with
+                  | None => VNone
+                  | Some d => match vview q with
+                              | None => VUnsupported
+                              | Some (t, v) => match get q K_SIG with
+                                               | None => VKeyError
+                                               | Some sp => vrsc own q c
+                                               end
+                              end
+                  end
+      end).
+    { intros c. destruct c as [|c|]; cbn [verify_redirect_signature_c]; rewrite ?vrs_char, ?vrsg_char, ?vview_has;
+        destruct (get q K_ALG); try reflexivity; destruct (digest_of _); try reflexivity;
+        destruct (vview q) as [[t v]|]; try reflexivity; destruct (get q K_SIG); reflexivity. }
+    intros H. rewrite (E ca) in H. rewrite (E ca'), (E ca).
+    destruct (get q K_ALG) as [a|] eqn:Ea; [|reflexivity]. destruct (digest_of a) as [d|] eqn:Ed; [|reflexivity].
+    destruct (vview q) as [[t v]|] eqn:Ev; [|reflexivity]. destruct (get q K_SIG) as [sp|] eqn:Es; [|reflexivity].
+    exfalso. revert H.
+    destruct ca as [|c|]; cbn [verify_redirect_signature_c]; rewrite ?vrs_char, ?vrsg_char, ?vview_has, ?Ea, ?Ed, ?Ev, ?Es.
+    all: repeat match goal with |- context [match ?x with _ => _ end] => destruct x end; cbn; discriminate.
+  Qed.
+
   (* ---------------------------------------------------------------- the property *)
 
   Lemma sign_inv k t v r al args :
@@ -522,7 +580,7 @@ Section Proofs.
 
   Lemma spec_holds x : guard x -> spec x (model x).
   Proof.
-    intros Hg. unfold Spec.spec. split.
+    intros Hg. unfold Spec.spec. split; [|split].
     - intros Hsgn. split; [|split].
       + intros Hn args. cbn [fst Spec.model]. rewrite Hsgn, (refused_outside_allowlist _ _ _ _ _ Hn). discriminate.
       + intros Ht a Ha Hin. destruct (sign_char (ks x) (typ x) (val x) (rs x) a Ht Hin) as [d [Hd Hs]].
@@ -533,10 +591,11 @@ Section Proofs.
       + intros args c Hso Hvc. pose proof (Hg args Hso) as Hno.
         cbn [fst Spec.model] in Hso. rewrite Hsgn in Hso.
         destruct (sign_inv _ _ _ _ _ _ Hso) as [a [d [Ha [Ht [Hin [Hd ->]]]]]].
-        cbn [snd Spec.model]. rewrite Hvc. split.
+        cbn [snd Spec.model]. rewrite Hvc. cbn [verify_redirect_signature_c]. split.
         * intros Hs. apply (honest_verifies _ _ _ _ _ _ _ _ _ Ht Hd Hs).
         * intros -> Hv. unfold keys4. apply (tamper_rejected _ _ _ _ _ _ _ _ Ht Hd Hno Hv).
-    - intros a Ha Hn. cbn [snd Spec.model]. rewrite (unsupported_not_verified _ _ _ _ Ha Hn). discriminate.
+    - intros a Ha Hn. cbn [snd Spec.model]. rewrite (unsupported_not_verified_c _ _ _ _ Ha Hn). discriminate.
+    - intros Hu. cbn [snd Spec.model]. rewrite Hu. apply unreadable_not_verified.
   Qed.
 
   (* ---------------------------------------------------------------- finding F1: the Signature parameter
@@ -554,7 +613,7 @@ Section Proofs.
     {| ks := k0; typ := K_REQ; val := "v"; rs := ""; alg := Some SHA256; sgn := true;
        q := [(K_REQ, "v"); (K_ALG, SHA256);
              (K_SIG, String "!"%char (encode (sign k0 "sha256" (octets_of K_REQ "v" None SHA256))))];
-       vc := Some (cert_of k0); own := k0 |}.
+       vc := CCert (cert_of k0); own := k0 |}.
 
   Notation model_v0 := (model_v0 cert_of sign verify).
 
@@ -576,7 +635,7 @@ Section Proofs.
   (* the same request is rejected by the code as it is now *)
   Lemma f1_now_rejected k0 : snd (model (f1_witness k0)) = VFalse.
   Proof.
-    cbn [snd Spec.model f1_witness own q vc]. rewrite vrs_char, vrsg_char.
+    cbn [snd Spec.model f1_witness own q vc verify_redirect_signature_c]. rewrite vrs_char, vrsg_char.
     change (get _ K_ALG) with (Some SHA256). cbv beta iota.
     change (digest_of SHA256) with (Some "sha256"). cbv beta iota.
     change (vview _) with (Some (K_REQ, "v")). cbv beta iota.
@@ -614,6 +673,82 @@ Section Proofs.
     cbn in Ea. injection Ea as <-. cbn in Evw. injection Evw as <- <-. cbn in Es. injection Es as <-.
     exists a, sp, d, k. subst c. repeat split; try assumption.
     rewrite Edec. destruct rs; reflexivity.
+  Qed.
+
+  (* ---------------------------------------------------------------- the loop of _do_redirect_sig_check as
+     coded, over published certificates of every form: unreadable ones contribute nothing, an absent one
+     (never produced by MetaData.certs) stands for the verifier's own certificate *)
+  Definition readable (own : key) (certs : list (certarg cert)) : list cert :=
+    flat_map (fun ca => match ca with CAbsent => [cert_of own] | CCert c => [c] | CUnreadable => [] end) certs.
+
+  Lemma raises_none_true own q ca l :
+    raises (vrsc own q ca) = true ->
+    existsb (fun c => vres_eqb (vrs own q (Some c)) VTrue) l = false.
+  Proof.
+    intros H. induction l as [|c l IH]; [reflexivity|]. cbn [existsb]. rewrite IH, orb_false_r.
+    pose proof (raises_param_only own q ca (CCert c) H) as E. cbn [verify_redirect_signature_c] in E.
+    rewrite E. destruct (vrsc own q ca); cbn in *; congruence.
+  Qed.
+
+  Lemma check_c_existsb own certs q :
+    do_redirect_sig_check_c cert_of verify own certs q = Some true
+    <-> do_redirect_sig_check cert_of verify own (readable own certs) q = true.
+  Proof.
+    unfold do_redirect_sig_check. induction certs as [|ca r IH].
+    - cbn. split; discriminate.
+    - cbn [do_redirect_sig_check_c readable flat_map]. rewrite existsb_app.
+      fold (readable own r).
+      destruct (raises (vrsc own q ca)) eqn:Er.
+      + (* KeyError / Unsupported: propagates; no certificate would have verified *)
+        rewrite (raises_none_true own q ca _ Er), (raises_none_true own q ca _ Er).
+        destruct (vrsc own q ca); cbn in Er; try discriminate; split; discriminate.
+      + destruct ca as [|c|]; cbn [verify_redirect_signature_c existsb orb] in *.
+        * destruct (vrs own q None) eqn:Ev; cbn in Er; try discriminate;
+            change (vrs own q (Some (cert_of own))) with (vrs own q None); rewrite Ev; cbn [vres_eqb orb];
+            try exact IH; split; reflexivity.
+        * destruct (vrs own q (Some c)) eqn:Ev; cbn in Er; try discriminate; cbn [vres_eqb orb];
+            try exact IH; split; reflexivity.
+        * pose proof (unreadable_not_verified own q) as Hn. cbn [verify_redirect_signature_c] in Hn.
+          match goal with |- match ?e with _ => _ end = _ <-> _ => destruct e eqn:Ev end;
+            cbn in Er; try discriminate; try exact IH; try contradiction.
+  Qed.
+
+  Lemma loads_c_readable own certs must origdoc rs sigalg signature :
+    loads_redirect_c cert_of verify own certs must origdoc rs sigalg signature
+    = loads_redirect cert_of verify own (readable own certs) must origdoc rs sigalg signature.
+  Proof.
+    unfold loads_redirect_c, loads_redirect. destruct must; [|reflexivity].
+    destruct sigalg as [a|]; [|reflexivity]. destruct signature as [sp|]; [|reflexivity].
+    match goal with |- context [do_redirect_sig_check_c _ _ _ _ ?q] => pose proof (check_c_existsb own certs q) as E end.
+    destruct (do_redirect_sig_check_c _ _ _ _ _) as [[|]|];
+      destruct (do_redirect_sig_check _ _ _ _ _); try reflexivity; exfalso;
+      try (now (assert (X : Some true = Some true) by reflexivity; apply E in X; discriminate));
+      try (now (assert (X : true = true) by reflexivity; apply E in X; discriminate)).
+  Qed.
+
+  Lemma in_readable own c certs :
+    In c (readable own certs) -> In (CCert c) certs \/ (c = cert_of own /\ In CAbsent certs).
+  Proof.
+    induction certs as [|ca r IH]; cbn [readable flat_map]; [intros []|].
+    rewrite in_app_iff. intros [H|H].
+    - destruct ca as [|c'|]; cbn in H; try contradiction; destruct H as [<-|[]].
+      + right. split; [reflexivity|left; reflexivity].
+      + left. left. reflexivity.
+    - destruct (IH H) as [H'|[E H']]; [left; right; exact H'|right; split; [exact E|right; exact H']].
+  Qed.
+
+  (* acceptance means: the owner of a READABLE published certificate signed (an unreadable one stands for
+     nobody; in particular it never brings the verifier's own key into play) *)
+  Lemma request_sound_c own certs origdoc rs sigalg signature :
+    (forall ca, In ca certs -> ca <> CAbsent) ->
+    loads_redirect_c cert_of verify own certs true origdoc rs sigalg signature = true ->
+    exists a sp d k, sigalg = Some a /\ signature = Some sp /\ In (CCert (cert_of k)) certs /\ digest_of a = Some d
+      /\ sp = encode (sign k d (octets_of K_REQ origdoc rs a)).
+  Proof.
+    intros Hna H. rewrite loads_c_readable in H.
+    destruct (request_sound _ _ _ _ _ _ H) as [a [sp [d [k [E1 [E2 [Hin [Hd Hs]]]]]]]].
+    exists a, sp, d, k. repeat split; try assumption.
+    destruct (in_readable _ _ _ Hin) as [H'|[_ H']]; [exact H'|]. exfalso. exact (Hna _ H' eq_refl).
   Qed.
 End Proofs.
 
@@ -673,7 +808,7 @@ Section Reflect.
 
   Lemma spec_b_iff (x : input key cert) o : spec_b cert_of cert_eqb x o = true <-> spec cert_of x o.
   Proof.
-    unfold spec_b, spec. rewrite andb_true_iff. apply and_iff2.
+    unfold spec_b, spec. rewrite andb_true_iff, andb_true_iff, and_assoc. apply and_iff2; [|apply and_iff2].
     - (* the signing part *)
       destruct (sgn x); cbn [negb orb].
       2:{ split; [intros _ H; discriminate|reflexivity]. }
@@ -702,7 +837,7 @@ Section Reflect.
           destruct (HB Et a eq_refl Em) as [args [sg [Eo Hd]]]. rewrite Eo.
           rewrite (Hd K_SIG), (honest_get_sig x a sg Et). apply dict_eqb_iff. exact Hd.
         * destruct (fst o) as [args| | |] eqn:Eo; try reflexivity.
-          destruct (vc x) as [c|] eqn:Ec; [|reflexivity].
+          destruct (vc x) as [|c|] eqn:Ec; [reflexivity| |reflexivity].
           destruct (HCD args c eq_refl eq_refl) as [H1 H2]. apply andb_true_iff. split.
           -- destruct (same_on_b keys5 (q x) args) eqn:Es; [|reflexivity]. cbn [negb orb].
              apply same_on_b_iff in Es. specialize (H1 Es).
@@ -720,6 +855,12 @@ Section Reflect.
         destruct (vres_eqb (snd o) VTrue) eqn:Ev; [|reflexivity]. exfalso.
         apply (H a eq_refl); [|apply vres_true_iff; exact Ev].
         intros Hs. apply mem_In in Hs. congruence.
+    - (* an unreadable certificate *)
+      split.
+      + intros H Hu Hv. rewrite Hu in H. apply vres_true_iff in Hv. rewrite Hv in H. discriminate.
+      + intros H. destruct (vc x); try reflexivity.
+        destruct (vres_eqb (snd o) VTrue) eqn:Ev; [|reflexivity]. exfalso.
+        apply (H eq_refl). apply vres_true_iff. exact Ev.
   Qed.
 End Reflect.
 
